@@ -50,8 +50,8 @@ def struct_case(prog, globs, limit=400, dbg=False):
     c['prog'] = prog
     c['parsed'] = c.pop('model')
     c['text'] = text
-    for k in ('expr', 'inc', 'bi', 'off', 'locals', 'hasLocals', 'containOnly', 'checkGlobals'):
-        c.pop(k, None)
+    for k in ('expr', 'inc', 'bi', 'off', 'locals', 'hasLocals', 'containOnly', 'checkGlobals', 'real_model'):
+        c.pop(k, None)            # (real_model: not needed after the observation; tens of thousands of cases are held until judged)
     return c
 
 
@@ -163,7 +163,7 @@ def run(ctx, replay=None):
         mc_struct(ctx, 3, 'two', 'struct3', emit=False)
     arrs = inputs['arrs']
     jobs = []
-    nflip = ctx.pick(1, 3)
+    nflip = ctx.pick(1, 2)
     for pi, prog in enumerate(progs):
         text = json.dumps(prog)
         used = [v for v in inputs['vars'] if ('"' + v + '"') in text]
@@ -179,7 +179,7 @@ def run(ctx, replay=None):
     # leg C: random programs
     jobs = []
     vals = inputs['truthy'] + inputs['falsy']
-    for _ in range(ctx.pick(1000, 15000)):
+    for _ in range(ctx.pick(1000, 12000)):
         prog = gen_struct.rprogram(rnd, maxdepth=rnd.choice([2, 3, 4, 5]))
         g = [{'name': n, 'val': rnd.choice(vals)} for n in gen_struct.GVARS]
         g.append({'name': 'garr', 'val': rnd.choice(arrs)})
